@@ -243,36 +243,37 @@ inductive Op where
   | set (v : Option Nat)               -- `sim.set_save_interval(v)`
   | step                               -- `sim.step()` returning `Ok`
   | stepFail                           -- `sim.step()` returning `Err`
-  | walk (k : Nat) (fail : Bool)       -- `sim.walk()`: `k` steps executed, then success / `Err`
+  | walk (initSaves k : Nat) (fail : Bool)
+      -- `sim.walk()` / `sim.walk_timed_path()`: `initSaves` × `save_state()` in front of the loop (from the
+      -- generated table), `k` steps executed, then success / `Err`
   deriving Repr
 
-structure Sim where
-  order : List Phase
-  initSaves : Nat
-
-def opR (d : Sim) (t : Tree) : Op → Res Tree
+def opR (order : List Phase) (t : Tree) : Op → Res Tree
   | .set v => .ok (setT 1 [] v t)
-  | .step => iterOk d.order t
-  | .stepFail => iterFail d.order t
-  | .walk k f => walkR d.order d.initSaves k f t
+  | .step => iterOk order t
+  | .stepFail => iterFail order t
+  | .walk s k f => walkR order s k f t
 
-def runR (d : Sim) : List Op → Tree → Res Tree
+def runR (order : List Phase) : List Op → Tree → Res Tree
   | [], t => .ok t
-  | o :: os, t => (opR d t o).bind (runR d os)
+  | o :: os, t => (opR order t o).bind (runR order os)
 
 /-! ### dump (what the harness prints for the real object) -/
 mutual
-def dumpT (pfx : String) : Tree → List String
+def dumpT (p : String) : Tree → List String
   | .node s i iv h kids =>
-    let p := if pfx == "" then s.name else pfx ++ "." ++ s.name
     (if s.hasI || s.hasHist || s.hasInterval then
       [p ++ " " ++ (if s.hasI then toString i else "-") ++ " "
         ++ (if s.hasInterval then (match iv with | none => "N" | some n => "S " ++ toString n) else "-") ++ " "
         ++ (if s.hasHist then h.foldl (fun acc x => acc ++ " " ++ toString x) ("[ " ++ toString h.length) else "-")]
-     else []) ++ dumpL p kids
-def dumpL (pfx : String) : List Tree → List String
+     else []) ++ dumpL p 0 kids
+def dumpL (pfx : String) (k : Nat) : List Tree → List String
   | [] => []
-  | t :: ts => dumpT pfx t ++ dumpL pfx ts
+  | t :: ts => dumpT (pfx ++ "." ++ t.info.name ++ "#" ++ toString k) t ++ dumpL pfx (k + 1) ts
 end
+
+/-- one line per node that has a counter, a history or an interval, in pre-order; the path of a
+    nested object is `<parent>.<field>#<position among the parent's nested objects>` -/
+def dump (t : Tree) : List String := dumpT t.info.name t
 
 end Altrios.Hist
